@@ -239,6 +239,10 @@ func (s *SoftwrapScanner) Scan(ctx vxfw.DrawContext) bool {
 			s.rest = append(s.rest, trSpace...)
 			// Append the rest...
 			s.rest = append(s.rest, rest...)
+			// The remaining input now starts in the middle of the
+			// segment: the saved state no longer describes what
+			// precedes it
+			s.state = -1
 			return true
 		}
 
